@@ -67,6 +67,9 @@ func (g *gen) Add(name string, typs []types.Type) (string, error) {
 	if !ok {
 		return "", fmt.Errorf("%s, does not return a function", name)
 	}
+	if sig.Variadic() || retSig.Variadic() {
+		return "", fmt.Errorf("%s, the first argument, %s, is or returns a variadic function, which is not supported", name, g.TypeString(sig))
+	}
 	retSig = derive.RenameBlankIdentifierWith(retSig, "innerParam_")
 	newTup := types.NewTuple(types.NewVar(retVar.Pos(), retVar.Pkg(), retVar.Name(), retSig))
 	sig = types.NewSignature(sig.Recv(), sig.Params(), newTup, sig.Variadic())
